@@ -27,7 +27,7 @@ from .. import ingest as ING
 from . import c12
 
 DRIVERS = ["drv_style"]
-GENERATED = ["IngestSteps", "PaintLine"]      # the rest is found through the imports of Props.C09 / Driver.Style
+GENERATED = ["IngestSteps", "PaintLine", "BlameMeta"]      # the rest is found through the imports of Props.C09 / Driver.Style
 
 
 _SIG_COUNT = {}
@@ -1344,6 +1344,444 @@ def corr_paint_binary(ctx, rep, mdl, gr):
             rep.corr_case("paint_lines/binary", agree, dict(args=a, kind=k, line=t, impl=hx(g.decode("utf-8", "replace")), model=m[:400], request=q))
 
 
+# --------------------------------------------------------------------------- session 4 (strengthening, seeded change C09-w6-09):
+# what `format::pad` is applied to — blame metadata with a precision on every placeholder, x --hyperlinks x commit URL
+# templates x stdout a pipe / a terminal; the line-number gutter with a precision
+
+BM_URLS = [None, "https://example.com/c/{commit}", "x:{commit}", "https://git.example.org/some/rather/long/path/to/repo/-/commit/{commit}?view=full",
+           "{commit}", "https://h/é/{commit}"]
+BM_AUTHORS = ["Alice", "Bob Builder", "日本 太郎", "deadbeefcafe", "Dan Davison", "é", "A. U. Thor (work)", "cafebabe1234 feedface"]
+BM_LABELS = ["timestamp", "author", "commit"]
+BM_COMMIT_RE = re.compile(r"\b[0-9a-f]{7,40}\b")
+BM_ENV = {"DELTA_VERIF_FORCE_GUESS": "git blame src/main.rs"}
+
+
+def bm_gen_blame(rng, distinct=False):
+    """A git blame stream: hashes of 4-40 hex digits (some all-decimal: not linked; some with the boundary marker `^`),
+    plain / wide / hex-looking authors, optional file column, code that may itself contain hashes."""
+    out = []
+    pool = []
+    for _ in range(rng.randint(2, 4)):
+        n = rng.choice([4, 7, 8, 8, 8, 12, 40])
+        h = "".join(rng.choice("0123456789abcdef") for _ in range(n))
+        if rng.random() < 0.12:
+            h = "".join(rng.choice("0123456789") for _ in range(n))
+        if rng.random() < 0.12:
+            h = "^" + h[:max(4, min(len(h), 39))]
+        pool.append(h)
+    if distinct:
+        pool = list(dict.fromkeys(pool))
+    nlines = rng.randint(3, 7)
+    prev = None
+    for n in range(1, nlines + 1):
+        c = rng.choice(pool)
+        if distinct:
+            c = rng.choice([x for x in pool if x != prev] or pool)
+        prev = c
+        filecol = " src/old name.rs" if rng.random() < 0.1 else ""
+        code = gen_line(rng) if rng.random() < 0.8 else "see commit %s and %s" % (rng.choice(pool).lstrip("^"), "0123456789abcdef")
+        out.append("%s%s (%-12s 2020-01-%02d 10:%02d:00 +0000 %3d) %s" % (c, filecol, rng.choice(BM_AUTHORS), rng.randint(1, 28),
+                                                                         rng.randint(0, 59), n, code))
+    return out
+
+
+def bm_precisions(rng, url):
+    """Precisions that fall before, inside and after each part of a linked 8-40 digit hash: the OSC 8 opener
+    (ESC ] 8 ; ; URL ESC \\), the text, the closer (ESC ] 8 ; ; ESC \\)."""
+    opener = 5 + len((url or "").replace("{commit}", "12345678")) + 2
+    return [0, 1, 2, 3, 4, 5, 6, 7, 8, 10, 14, opener - 1, opener, opener + 1, opener + rng.randint(2, 7), opener + 8, opener + 9,
+            opener + 8 + rng.randint(1, 6), opener + 8 + 7, opener + rng.randint(0, 60), 60, 200, 70000]
+
+
+def bm_placeholder(rng, label, prec_p, url):
+    if rng.random() < 0.12:
+        return "{%s}" % label
+    fill = rng.choice(["", "", "", ".", "_", "*"])
+    al = rng.choice(["<", "<", "^", ">", ""])
+    s = (fill + al) if al else ""
+    if rng.random() < 0.85:
+        s += str(rng.choice([0, 1, 4, 7, 8, 9, 12, 15, 20, 30, 64]))
+    prec = None
+    if rng.random() < prec_p:
+        prec = rng.choice(bm_precisions(rng, url))
+        s += ".%d" % prec
+    return "{%s%s}" % (label, (":" + s) if s else ""), prec
+
+
+def bm_format(rng, url, commit_prec):
+    """-> (format string, set of labels that carry a precision). `commit_prec`: make sure {commit} has one."""
+    labels = list(BM_LABELS)
+    rng.shuffle(labels)
+    labels = labels[:rng.choice([1, 2, 3, 3, 3])]
+    if commit_prec and "commit" not in labels:
+        labels[rng.randrange(len(labels))] = "commit"
+    if rng.random() < 0.15:
+        labels.append(rng.choice(BM_LABELS))
+    out, with_prec = rng.choice(["", "", " ", "[", "«"]), set()
+    for k, lab in enumerate(labels):
+        r = bm_placeholder(rng, lab, 1.0 if (commit_prec and lab == "commit") else 0.5, url)
+        if isinstance(r, tuple):
+            text, prec = r
+            if prec is not None:
+                with_prec.add(lab)
+        else:
+            text = r
+        out += text + (rng.choice([" ", " ", "|", " • ", "", "] "]) if k + 1 < len(labels) else rng.choice(["", "", " ", "]", "»"]))
+    return out, with_prec
+
+
+def bm_config(rng, want_link=None, want_commit_prec=None):
+    """-> (args, info). info: hyperlinks, url, format, labels with a precision, class name of the input."""
+    hl = rng.random() < 0.75 if want_link is None else want_link
+    url = rng.choice(BM_URLS[1:]) if (hl and rng.random() < 0.9) else (rng.choice(BM_URLS) if rng.random() < 0.3 else None)
+    cp = (rng.random() < 0.7) if want_commit_prec is None else want_commit_prec
+    fmt, with_prec = bm_format(rng, url, cp)
+    a = ["--blame-format=" + fmt, "--blame-timestamp-output-format=" + rng.choice(["%Y-%m-%d", "%Y", "%H:%M %d.%m.%y", "%Y-%m-%d %H:%M:%S %z"])]
+    if hl:
+        a.append("--hyperlinks")
+    if url is not None:
+        a.append("--hyperlinks-commit-link-format=" + url)
+    if with_prec and hl and url is not None:
+        cls = "precision-cuts-link"
+    elif with_prec:
+        cls = "precision"
+    else:
+        cls = "no-precision"
+    return a, dict(hyperlinks=hl, url=url, format=fmt, with_prec=sorted(with_prec), cls=cls)
+
+
+def bm_link_pieces(text, url):
+    """`format_commit_line_with_osc8_commit_hyperlink(text, config)` as pieces, written from its documentation: the first 13
+    matches of \\b[0-9a-f]{7,40}\\b that contain a letter become links to the URL template with {commit} replaced."""
+    if url is None:
+        return [("P", text)]
+    out, pos = [], 0
+    for k, m in enumerate(BM_COMMIT_RE.finditer(text)):
+        if k >= 13:
+            break
+        if m.start() > pos:
+            out.append(("P", text[pos:m.start()]))
+        h = m.group(0)
+        if re.search("[a-f]", h):
+            out.append(("L", url.replace("{commit}", h), h))
+        else:
+            out.append(("P", h))
+        pos = m.end()
+    if pos < len(text) or not out:
+        out.append(("P", text[pos:]))
+    return out
+
+
+class BmWidths:
+    """`UnicodeWidthStr::width` of single chars, from the implementation (hook op blame.widths), cached."""
+
+    def __init__(self, ctx):
+        self.ctx, self.cache = ctx, {}
+
+    def table(self, strings):
+        chars = sorted(set(ch for s in strings for ch in s if not (" " <= ch <= "~")))
+        todo = [c for c in chars if c not in self.cache]
+        if todo:
+            res = self.ctx.hook().ask(["blame.widths " + hx(c) for c in todo])
+            for c, r in zip(todo, res):
+                self.cache[c] = int(r.split(" ")[1]) if r.startswith("ok ") else 1
+        t = ["%d:%d" % (ord(c), self.cache[c]) for c in chars if self.cache[c] != 1]
+        return ";".join(t) if t else "-"
+
+
+def bm_field(text, url):
+    ps = bm_link_pieces(text, url)
+    f = [hx(text), str(len(ps))]
+    for p in ps:
+        f += ["P", hx(p[1])] if p[0] == "P" else ["L", hx(p[1]), hx(p[2])]
+    return " ".join(f)
+
+
+def bm_items_of(format_data):
+    """hook `blame.format_data` answer -> the item fields of a blamemeta.format request (None: not understood)."""
+    if not format_data.startswith("ok "):
+        return None
+    f = format_data.split(" ")
+    items = []
+    for it in f[2:]:
+        p = it.split(",")
+        if len(p) != 6:
+            return None
+        lab = {"t": "timestamp", "a": "author", "c": "commit", "-": "-"}.get(p[1])
+        if lab is None:
+            return None
+        items.append("%s %s %s %s %s %s" % (p[0], lab, p[2], p[3], p[4], p[5]))
+    if len(items) != int(f[1]):
+        return None
+    return "%d %s" % (len(items), " ".join(items)) if items else "0"
+
+
+def bm_model_request(bw, info, terminal, items, ts, author, commit):
+    url = info["url"] if info["hyperlinks"] else None
+    # without --hyperlinks no arm consults the link function; with it and no template there is no remote either (--no-gitconfig)
+    cw = bw.table([ts, author, commit, info["format"], url or ""])
+    return "blamemeta.format %d %d %s %s %s %s %s" % (1 if info["hyperlinks"] else 0, 1 if terminal else 0, cw,
+                                                       bm_field(ts, url), bm_field(author, url), bm_field(commit, url), items)
+
+
+def bm_hook_facts(ctx, args, lines):
+    """One conversation with the hooked binary under `args`: the parsed format and, per line, the parsed blame line and the
+    real `format_blame_metadata` -> (items | None, [(parse answer, meta answer)])."""
+    req = ["cfg " + " ".join(hx(x) for x in args), "blame.format_data"]
+    for l in lines:
+        req += ["blame.parse " + hx(l), "blame.meta " + hx(l)]
+    res = ctx.hook().ask(req, sticky=[0])
+    facts = [(res[2 + 2 * k], res[3 + 2 * k]) for k in range(len(lines))]
+    return bm_items_of(res[1]), facts
+
+
+def bm_parsed(parse, meta):
+    """-> (commit, author, ts) or None"""
+    if not parse.startswith("ok ") or parse == "ok none" or not meta.startswith("ok ") or meta == "ok none":
+        return None
+    p, m = parse.split(" "), meta.split(" ")
+    try:
+        return unhx(p[1]).decode("utf-8"), unhx(p[2]).decode("utf-8"), unhx(m[3]).decode("utf-8")
+    except Exception:
+        return None
+
+
+def corr_blame_meta(ctx, rep, mdl):
+    """Hook `blame.meta` (the real format_blame_metadata under a real Config; the hook's stdout is a pipe) vs
+    `blamemeta.format` of drv_style (`BlameMeta.formatMeta`, stdout-is-terminal = false), and the property on the hook's
+    answer: the metadata decodes to the default state."""
+    rng = ctx.rng
+    bw = BmWidths(ctx)
+    runs = []
+    for k in range(ctx.n(40, 500)):
+        a, info = bm_config(rng, want_link=True if k % 2 == 0 else None, want_commit_prec=True if k % 4 == 0 else None)
+        runs.append((a, info, bm_gen_blame(rng)))
+
+    def one(run):
+        a, info, lines = run
+        return bm_hook_facts(ctx, a, lines)
+    results = parallel_map(one, runs, workers=4)
+    reqs, metas = [], []
+    for (a, info, lines), (items, facts) in zip(runs, results):
+        for l, (parse, meta) in zip(lines, facts):
+            rep.count("blame_meta:" + info["cls"])
+            replay = dict(kind="blame-meta-hook", args=a, line=l, cls=info["cls"], impl=meta[:300])
+            got = unhx(meta.split(" ")[1]) if meta.startswith("ok ") and meta != "ok none" else None
+            rep.case(key=("blame_meta", tuple(a), l), nontrivial=got is not None, sample=replay)
+            if got is not None and not self_contained(got):
+                _viol(rep, "blame:metadata-not-self-contained:" + info["cls"],
+                      "format_blame_metadata returns a string with a cut escape sequence / an unclosed link / a rendition left on (%s)"
+                      % (state_problem(got),), replay)
+            pr = bm_parsed(parse, meta)
+            if pr is None or items is None:
+                rep.count("blame_meta:not-compared(" + ("unparsed-line" if pr is None else "format") + ")")
+                continue
+            commit, author, ts = pr
+            reqs.append(bm_model_request(bw, info, False, items, ts, author, commit))
+            metas.append((replay, meta))
+    model = mdl.ask(reqs) if mdl else []
+    for (replay, meta), q, m in zip(metas, reqs, model):
+        agree = (m.startswith("ok ") and meta.startswith("ok ") and m.split(" ")[1] == meta.split(" ")[1]) or \
+            (m.startswith("PANIC") and meta.startswith("PANIC"))
+        rep.corr_case("blame.meta", agree, dict(replay, request=q, model=m[:300]))
+
+
+def run_delta_pty(ctx, args, stdin_bytes, env=None, timeout=20):
+    """The real binary with stdout on a pseudo-terminal in raw mode (no NL translation): what delta writes when it is the
+    last process before the terminal. -> (rc, stdout bytes)."""
+    import pty, select, subprocess, time, tty
+    e = dict(os.environ)
+    for k in ("GIT_CONFIG_PARAMETERS", "DELTA_FEATURES", "DELTA_PAGER", "PAGER", "BAT_PAGER", "BAT_THEME", "COLORTERM",
+              "DELTA_VERIF_HOOK", "LESS", "GIT_PREFIX"):
+        e.pop(k, None)
+    e["HOME"] = os.path.join(core_BUILD(), "home")
+    os.makedirs(e["HOME"], exist_ok=True)
+    e["GIT_CONFIG_NOSYSTEM"] = "1"
+    e["DELTA_VERIF_FORCE_GUESS"] = "none"
+    e["TERM"] = "xterm-256color"
+    e.update(env or {})
+    master, slave = pty.openpty()
+    tty.setraw(slave)
+    p = subprocess.Popen([ctx.delta] + list(args), stdin=subprocess.PIPE, stdout=slave, stderr=subprocess.DEVNULL, env=e, close_fds=True)
+    os.close(slave)
+    try:
+        p.stdin.write(stdin_bytes)
+        p.stdin.close()
+    except BrokenPipeError:
+        pass
+    out, t0 = b"", time.time()
+    while time.time() - t0 < timeout:
+        r, _, _ = select.select([master], [], [], 0.5)
+        if r:
+            try:
+                d = os.read(master, 65536)
+            except OSError:
+                break
+            if not d:
+                break
+            out += d
+        elif p.poll() is not None:
+            break
+    if p.poll() is None:
+        p.kill()
+        p.wait()
+        os.close(master)
+        return "timeout", out
+    p.wait()
+    os.close(master)
+    return p.returncode, out
+
+
+def bm_check_rows(rep, replay, out, sig):
+    """Every complete row of `out` through the independent decoder; the first row that does not end in the default state is
+    reported under `sig`. -> (decoded, bad)"""
+    dec = T.decode(out)
+    for n, r in enumerate(dec.rows):
+        if not r.terminated:
+            continue
+        e = r.end
+        what = None
+        if r.problems:
+            what = "partial sequence (%s)" % r.problems[0][0]
+        elif e.mode != "ground":
+            what = "partial sequence"
+        elif e.link is not None:
+            what = "hyperlink still open"
+        elif e.fg is not None or e.bg is not None or e.attrs:
+            what = "rendition left on"
+        if what:
+            _viol(rep, sig, "at a newline of stdout the terminal is not in its default state: %s" % what,
+                  dict(replay, row=n, row_text=r.text()[:200], state=e.describe(), problems=r.problems[:3]))
+            return dec, 1
+    return dec, 0
+
+
+BM_ROW_FRONT = re.compile(rb"^(\x1b\[(?:48;[0-9;]*)m)")
+
+
+def blame_binary_oracle(ctx, rep, mdl):
+    """git blame streams through the real binary, stdout a pipe and (a smaller family) stdout a pseudo-terminal:
+    blame formats with a precision on each placeholder x --hyperlinks x commit URL templates x widths x separator formats
+    x fill methods. Oracle: every output row ends in the default state (signature names the input class). Correspondence:
+    the row of every line whose key differs from the previous one starts with <metadata style> + the model's metadata +
+    reset (`BlameMeta.formatMeta` with stdout-is-terminal as in the run)."""
+    import base64
+    rng = ctx.rng
+    bw = BmWidths(ctx)
+    jobs = []
+    for k in range(ctx.n(96, 1500)):
+        a, info = bm_config(rng, want_link=True if k % 3 != 2 else None, want_commit_prec=True if k % 3 == 0 else None)
+        a = ["--no-gitconfig", "--paging=never", "--width=%s" % rng.choice(["40", "60", "80", "120", "variable"])] + a
+        if rng.random() < 0.3:
+            a.append("--blame-separator-format=" + rng.choice(["{n:>6}│", "│{n:^4}│", "{n:<3.2} ", "none", "{n:^7_block}", " "]))
+        if rng.random() < 0.25:
+            a.append("--blame-palette=" + rng.choice(["#102030", "#102030 #203040 #304050", "red blue"]))
+        if rng.random() < 0.2:
+            a.append("--blame-separator-style=" + rng.choice(["bold yellow", "reverse", "normal"]))
+        if rng.random() < 0.2:
+            a.append("--blame-code-style=" + rng.choice(["syntax", "normal 236", "italic"]))
+        a.append("--line-fill-method=" + rng.choice(["ansi", "spaces"]))
+        if rng.random() < 0.3:
+            a.append("--syntax-theme=none")
+        if rng.random() < 0.15:
+            a.append("--line-numbers")
+        jobs.append((a, info, bm_gen_blame(rng, distinct=rng.random() < 0.5), False))
+    for k in range(ctx.n(16, 200)):
+        a, info = bm_config(rng, want_link=True if k % 4 != 3 else None, want_commit_prec=True if k % 2 == 0 else None)
+        a = ["--no-gitconfig", "--paging=never", "--detect-dark-light=never", "--width=%s" % rng.choice(["60", "80"])] + a
+        jobs.append((a, info, bm_gen_blame(rng, distinct=True), True))
+
+    def one(job):
+        a, info, lines, on_tty = job
+        inp = ("\n".join(lines) + "\n").encode()
+        if on_tty:
+            rc, out = run_delta_pty(ctx, a, inp, env=BM_ENV)
+        else:
+            rc, out, _ = ctx.run_delta(a, inp, env=BM_ENV, timeout=20)
+        hook_args = [x for x in a if x not in ("--paging=never",)]
+        items, facts = bm_hook_facts(ctx, hook_args, lines)
+        return rc, out, items, facts
+    results = parallel_map(one, jobs, workers=4)
+    reqs, metas = [], []
+    for (a, info, lines, on_tty), (rc, out, items, facts) in zip(jobs, results):
+        inp = ("\n".join(lines) + "\n").encode()
+        sig = "newline-not-default:blame:" + info["cls"] + (":stdout-terminal" if on_tty else "")
+        replay = dict(kind="blame-binary", args=a, env=BM_ENV, stdout="pty" if on_tty else "pipe", cls=info["cls"], signature=sig,
+                      stdin_b64=base64.b64encode(inp).decode())
+        rep.case(key=("blame-binary", tuple(a), on_tty, inp), nontrivial=out.count(b"\n") >= 3,
+                 sample=dict(op="blame-binary", args=a, stdout=replay["stdout"], cls=info["cls"], rc=rc, rows=out.count(b"\n")))
+        rep.count("blame-binary:%s:%s" % ("pty" if on_tty else "pipe", info["cls"]))
+        if rc == "timeout":
+            rep.count("blame-binary:timeout(C03)")
+            continue
+        if rc != 0:
+            rep.count("blame-binary:rc=%s(C03)" % rc)
+        dec, bad = bm_check_rows(rep, replay, out, sig)
+        if any(c.link for r in dec.rows for c in r.cells):
+            rep.count("blame-binary:with-links")
+        rows = out.split(b"\n")[:-1]
+        if items is None or len(rows) != len(lines) or rc != 0:
+            rep.count("blame-binary:not-compared(rows=%d,lines=%d)" % (len(rows), len(lines)) if items is not None else "blame-binary:not-compared(format)")
+            continue
+        for l, row, (parse, meta) in zip(lines, rows, facts):
+            pr = bm_parsed(parse, meta)
+            if pr is None:
+                continue
+            commit, author, ts = pr
+            reqs.append(bm_model_request(bw, info, on_tty, items, ts, author, commit))
+            metas.append((replay, l, row, len(metas) and metas[-1][0] is replay))
+    model = mdl.ask(reqs) if mdl else []
+    prev_key = {}
+    for (replay, l, row, same_run), q, m in zip(metas, reqs, model):
+        if not m.startswith("ok "):
+            rep.corr_case("blame_meta/binary", False, dict(replay, line=l, request=q, model=m[:300]))
+            continue
+        key = unhx(m.split(" ")[1])
+        rid = id(replay)
+        is_repeat = prev_key.get(rid) == key
+        prev_key = {rid: key}
+        if is_repeat:
+            rep.count("blame-binary:repeat-row(not compared)")
+            continue
+        f = BM_ROW_FRONT.match(row)
+        agree = bool(f) and row.startswith(f.group(1) + key + b"\x1b[0m")
+        rep.corr_case("blame_meta/binary", agree, dict(replay, line=l, row=row.decode("utf-8", "replace")[:300], request=q, model=m[:300]))
+
+
+def gutter_precision_oracle(ctx, rep):
+    """The line-number gutter: --line-numbers x --hyperlinks x formats with a precision on {nm} / {np} x unified / side-by-side:
+    every row ends in the default state (a precision must not cut the OSC 8 link around a number)."""
+    import base64
+    rng = ctx.rng
+    jobs = []
+    for k in range(ctx.n(40, 600)):
+        a = ["--no-gitconfig", "--paging=never", "--line-numbers", "--width=%d" % rng.choice([40, 60, 80, 120])]
+        if k % 4 != 3:
+            a.append("--hyperlinks")
+            if rng.random() < 0.5:
+                a.append("--hyperlinks-file-link-format=" + rng.choice(["file://{path}", "vscode://file/{path}:{line}", "file-line://{path}:{line}"]))
+
+        def ph(label):
+            al = rng.choice(["<", "^", ">", ""])
+            return "{%s:%s%s.%d}" % (label, al, rng.choice(["", "2", "4", "6"]), rng.choice([0, 1, 2, 3, 5, 9, 14, 20, 30, 60]))
+        a.append("--line-numbers-left-format=" + rng.choice(["", "["]) + ph("nm") + rng.choice(["⋮", " ", "|" + ph("np")]))
+        a.append("--line-numbers-right-format=" + ph("np") + rng.choice(["│", " ", ""]))
+        if rng.random() < 0.4:
+            a.append("--side-by-side")
+        if rng.random() < 0.3:
+            a.append("--line-fill-method=spaces")
+        jobs.append((a, gen_diff(rng, colored=rng.random() < 0.2)))
+    results = parallel_map(lambda j: ctx.run_delta(j[0], j[1], timeout=20), jobs, workers=4)
+    for (a, inp), (rc, out, err) in zip(jobs, results):
+        rep.case(key=("gutter-precision", tuple(a), inp), nontrivial=out.count(b"\n") >= 3,
+                 sample=dict(op="gutter-precision", args=a, rc=rc, rows=out.count(b"\n")))
+        rep.count("gutter-precision:" + ("hyperlinks" if "--hyperlinks" in a else "plain"))
+        if rc != 0:
+            rep.count("gutter-precision:rc=%s(C03)" % rc)
+        check_stdout(rep, dict(kind="binary", input_kind="diff", args=a, env={}, stdin_b64=base64.b64encode(inp).decode()), out,
+                     tag="line-numbers:precision" + ("-cuts-link" if "--hyperlinks" in a else ""))
+
+
 def run(ctx, rep):
     rep.rule = ("hook level: random lists of (style, text) / random lines built from text and escape-sequence items "
                 "(SGR, OSC 8, EL), random fill styles, widths 0-12, five truncation tails, 10 side-by-side configs; "
@@ -1353,7 +1791,11 @@ def run(ctx, rep):
                 "(rainbow / per-token / OSC 8 with long URLs / text that fits followed by sequences only / rendition and link "
                 "closed only at the very end / mixed; 1-33 x (limit+1) bytes long) x --max-line-length 1-100 through "
                 "machine.ingest, and through the binary at every place raw_line is printed (10 contexts x the option sets that "
-                "make them raw). Non-trivial = >=2 strings/items or "
+                "make them raw); blame: streams (4-40 digit hashes, boundary marker, wide / hex-looking authors) x blame formats "
+                "with fill / alignment / width / precision on every placeholder (precisions before, inside and after the OSC 8 "
+                "opener, the text and the closer) x --hyperlinks x commit URL templates x stdout a pipe / a pseudo-terminal, at "
+                "the hook (blame.meta) and through the binary; gutter: --line-numbers x --hyperlinks x number formats with a "
+                "precision. Non-trivial = >=2 strings/items or "
                 ">=3 output rows; distinct by full input")
     rep.extra_trusted += ["vlib/termmodel.py (independent terminal decoder, from ECMA-48 / xterm ctlseqs / OSC 8 spec)",
                           "unicode-segmentation / unicode-width (clusters and widths taken from the implementation)",
@@ -1366,6 +1808,9 @@ def run(ctx, rep):
     corr_pad(ctx, rep, mdl, gr)
     corr_paint_lines(ctx, rep, mdl, gr)
     corr_paint_binary(ctx, rep, mdl, gr)
+    corr_blame_meta(ctx, rep, mdl)
+    blame_binary_oracle(ctx, rep, mdl)
+    gutter_precision_oracle(ctx, rep)
     blobs = binary_oracle(ctx, rep)
     decoration_oracle(ctx, rep)
     corr_cr(ctx, rep, mdl)
@@ -1387,6 +1832,27 @@ def replay(ctx, rep, obj):
         dec, bad = check_stdout(rep, dict(case), out)
         rep.case(key=("replay",), nontrivial=True)
         print("rows=%d bad=%d" % (len(dec.rows), bad))
+    elif case.get("kind") == "blame-binary":
+        import base64
+        inp = base64.b64decode(case["stdin_b64"])
+        if case.get("stdout") == "pty":
+            rc, out = run_delta_pty(ctx, case["args"], inp, env=case.get("env") or {})
+        else:
+            rc, out, err = ctx.run_delta(case["args"], inp, env=case.get("env") or {}, timeout=20)
+        print("replay rc=%s (stdout: %s)" % (rc, case.get("stdout")))
+        dec, bad = bm_check_rows(rep, dict(case), out, case.get("signature", "newline-not-default:blame:" + case.get("cls", "?")))
+        rep.case(key=("replay",), nontrivial=True)
+        print("rows=%d bad=%d" % (len(dec.rows), bad))
+    elif case.get("kind") == "blame-meta-hook":
+        (items, facts) = bm_hook_facts(ctx, case["args"], [case["line"]])
+        meta = facts[0][1]
+        print("replay blame.meta -> %s" % meta[:300])
+        rep.case(key=("replay",), nontrivial=True)
+        got = unhx(meta.split(" ")[1]) if meta.startswith("ok ") and meta != "ok none" else None
+        if got is not None and not self_contained(got):
+            _viol(rep, "blame:metadata-not-self-contained:" + case.get("cls", "?"),
+                  "format_blame_metadata returns a string with a cut escape sequence / an unclosed link / a rendition left on (%s)"
+                  % (state_problem(got),), dict(case))
     elif case.get("kind") == "paint-lines-hook":
         secs = [tuple(x) for x in case["sections"]]
         text = "".join(t for _, t in secs)
